@@ -781,7 +781,12 @@ def _vectorize_func(func):
 
     # What should work once that Jax backend is fully supported
     signature = inspect.signature(func)
-    func_vec = numpy.vectorize(func)
+    # Without `otypes`, numpy infers the output dtype from the result for the first row
+    # only and casts all other rows to it (e.g. an integer literal returned for the first
+    # row truncates the floats returned for later rows).
+    return_type = getattr(func, "__annotations__", {}).get("return")
+    otypes = [float] if return_type is float else None
+    func_vec = numpy.vectorize(func, otypes=otypes)
 
     @functools.wraps(func)
     def wrapper_vectorize_func(*args, **kwargs):
